@@ -116,6 +116,11 @@ fn run_sequence(shape: &Shape, frags: &[(usize, u32)], seq: &[usize]) -> Result<
 
 /// The same for DATAFRAG submessages that carry `n >= 1` consecutive fragments: (sample, first fragment, n).
 fn run_pieces(shape: &Shape, frags: &[(usize, u32, u32)], seq: &[usize]) -> Result<String, String> {
+  run_pieces_spaced(shape, frags, seq, 0)
+}
+
+/// `gap_ms` of (virtual) time pass between consecutive arrivals
+fn run_pieces_spaced(shape: &Shape, frags: &[(usize, u32, u32)], seq: &[usize], gap_ms: u64) -> Result<String, String> {
   let mut sim = SimReader::new(RCfg { reliable: true, history: 0, nwriters: 2, frag_size: FRAG_B });
   let nfr: Vec<u32> = shape.samples.iter().map(|(w, sn, k, pad)| sim.nfrags(*w, *sn, *k, *pad)).collect();
   let mut got: Vec<BTreeSet<u32>> = vec![BTreeSet::new(); shape.samples.len()];
@@ -123,6 +128,9 @@ fn run_pieces(shape: &Shape, frags: &[(usize, u32, u32)], seq: &[usize]) -> Resu
   for (step, fi) in seq.iter().enumerate() {
     let (si, f, n) = frags[*fi];
     let (w, sn, k, pad) = shape.samples[si];
+    if step > 0 && gap_ms > 0 {
+      sim.advance_clock_ms(gap_ms);
+    }
     let b = if n == 1 { sim.frag_bytes(w, sn, k, pad, f) } else { sim.frag_run_bytes(w, sn, k, pad, f, n) };
     sim.inject(&b);
     got[si].extend(f..f + n);
@@ -343,7 +351,47 @@ pub fn run(tier: &str) -> i32 {
     rep.push_sample(json!({"layer": "c", "shape": shape.name, "cuttings": combos.len(), "arrival_sequences": shape_total}));
   }
   rep.set("multi_fragment_submessage_sequences", json!(c_n));
-  let b_n = b_n + c_n;
+  // ---- (d) slow transfers: one sample of 5 (thorough: also 6) fragments, every arrival order, with 2.5 s, 4 s or
+  // 9 s of (virtual) time between consecutive fragments.  Every gap is longer than the Reader's fragment
+  // garbage-collection interval (2 s), so the collector runs at each arrival, and shorter than the assembly
+  // timeout (10 s), so an assembly that keeps receiving fragments is never stale - while the whole transfer takes
+  // longer than the timeout.  All fragments arrive: the sample has to be there, once, intact.
+  let mut d_n = 0u64;
+  for want in if tier == "thorough" { vec![5u32, 6] } else { vec![5u32] } {
+    let probe = SimReader::new(RCfg { reliable: true, history: 0, nwriters: 2, frag_size: FRAG_B });
+    let Some(pad) = (0..200usize).find(|pad| probe.nfrags(0, 1, 1, *pad) == want) else {
+      rep.machinery_errors.push(format!("layer d: no pad length gives {want} fragments"));
+      continue;
+    };
+    drop(probe);
+    let shape = Shape { name: "slow", samples: vec![(0, 1, 1, pad)] };
+    let pieces: Vec<(usize, u32, u32)> = (1..=want).map(|f| (0usize, f, 1u32)).collect();
+    let nperm: u64 = (1..=u64::from(want)).product();
+    const GAPS: [u64; 3] = [2500, 4000, 9000];
+    let total = nperm as usize * GAPS.len();
+    let res = par_map(total, 16, |i| {
+      let seq = nth_permutation((i / GAPS.len()) as u64, want as usize);
+      let gap = GAPS[i % GAPS.len()];
+      (run_pieces_spaced(&shape, &pieces, &seq, gap), seq, gap)
+    });
+    d_n += total as u64;
+    for (r, seq, gap) in res {
+      match r {
+        Ok(c) => {
+          if classes.len() < 6000 {
+            classes.insert(format!("d: {want} fragments gap {gap} {c}"));
+          }
+        }
+        Err(e) => {
+          let order: Vec<u32> = seq.iter().map(|i| pieces[*i].1).collect();
+          rep.violation("C05:slow:complete-not-delivered", json!({"layer": "d", "fragments": want, "arrival_order": order, "gap_ms": gap}), &format!("one sample of {want} fragments arriving in the order {order:?} with {gap} ms between consecutive fragments (each within the 10 s assembly timeout of the previous one): {e}"));
+        }
+      }
+    }
+    rep.push_sample(json!({"layer": "d", "fragments": want, "arrival_orders": nperm, "gaps_ms": GAPS}));
+  }
+  rep.set("slow_transfer_sequences", json!(d_n));
+  let b_n = b_n + c_n + d_n;
   rep.set("evaluations", json!(a_n + b_n));
   rep.set("states", json!(a_n + b_n));
   rep.set("transitions", json!(a_n + b_n));
@@ -352,11 +400,11 @@ pub fn run(tier: &str) -> i32 {
   rep.set("layer_b_arrival_sequences", json!(b_n));
   rep.set("distinct_nontrivial", json!(classes.len()));
   rep.set("exhaustive", json!(true));
-  rep.set("rule", json!("(a) every payload length 0..4F+5 x fragment size F (quick: F=1024 only around the multiples) x {data, dispose-by-key}: real Writer (data_max_size_serialized=F) -> datagrams -> real Reader; (b) per shape every permutation of all fragments of all samples, alone and with each fragment duplicated at each position; (c) DATAFRAG submessages carrying several fragments (fragmentsInSubmessage >= 2, as other vendors send them): every cutting of each sample's fragments into consecutive runs, every arrival order of the runs, alone and with one run duplicated at each position; distinct_nontrivial = distinct (fragment count, last-full, kind) classes in (a) plus distinct completion-step patterns in (b)"));
+  rep.set("rule", json!("(a) every payload length 0..4F+5 x fragment size F (quick: F=1024 only around the multiples) x {data, dispose-by-key}: real Writer (data_max_size_serialized=F) -> datagrams -> real Reader; (b) per shape every permutation of all fragments of all samples, alone and with each fragment duplicated at each position; (c) DATAFRAG submessages carrying several fragments (fragmentsInSubmessage >= 2, as other vendors send them): every cutting of each sample's fragments into consecutive runs, every arrival order of the runs, alone and with one run duplicated at each position; (d) one sample of 5 (thorough: and 6) fragments in every arrival order with 2.5 s / 4 s / 9 s of virtual time between consecutive fragments (garbage collection runs at every arrival, the whole transfer outlasts the 10 s assembly timeout, no fragment is later than 10 s after the previous one): complete, once, intact; distinct_nontrivial = distinct (fragment count, last-full, kind) classes in (a) plus distinct completion-step patterns in (b)"));
   rep.assumptions = vec![
     "Fragment sizes below 4 are excluded (the 4-byte encapsulation header would straddle fragments; no writer of this implementation can be configured that way except through the pub test field used here)".into(),
     "Layer (b) builds DATAFRAGs with MessageBuilder::data_frag_msg, the constructor the Writer uses (layer (a) covers the Writer's own splitting)".into(),
-    "Fragment garbage collection (10 s timeout) is not triggered: the virtual clock does not advance".into(),
+    "Layers (a)-(c): the virtual clock does not advance, fragment garbage collection is not triggered; layer (d) advances it between arrivals".into(),
   ];
   rep.finish()
 }
